@@ -269,9 +269,14 @@ func lfDeadKind(s utils.Source) string {
 		return "or-rhs-after-always-returning-lhs"
 	case strings.Contains(s.IsDeadReason, "`unless` query always returns something"):
 		return "unless-on-empty-always-returning"
-	case strings.Contains(s.IsDeadReason, "always evaluates to"):
+	case strings.Contains(s.IsDeadReason, "always evaluates to"), s.IsDead && s.IsDeadReason == "":
+		// an empty reason is a verdict carried through arithmetic on constants (calculateStaticReturn passes isDead on)
 		return "static-comparison"
 	case strings.Contains(s.IsDeadReason, "label from `on(...)`"):
+		if strings.Contains(s.IsDeadReason, "`__name__` label from") {
+			// functions and arithmetic drop the metric name in Prometheus; the analyser only knows that aggregations do
+			return "never-matched-on-metric-name"
+		}
 		return "never-matched-on"
 	case strings.Contains(s.IsDeadReason, "while the left hand side will"):
 		return "never-matched-guaranteed-label"
@@ -288,12 +293,46 @@ func lfBranches(expr string) string {
 	return ""
 }
 
-// calculateStaticReturn folds comparisons as filters even under the bool modifier
-func lfBool(kind, expr string) string {
-	if kind == "static-comparison" && strings.Contains(expr, " bool ") {
-		return ":bool-modifier-in-query"
+// AlwaysReturns survives vector-vector operations: `x unless on() (vector(1) and y)` is judged as if the right side
+// always returned something
+func lfUnless(kind, expr string) string {
+	if kind != "unless-on-empty-always-returning" {
+		return ""
+	}
+	i := strings.Index(expr, "unless on() ")
+	if i < 0 {
+		return ""
+	}
+	rest := expr[i+len("unless on() "):]
+	for _, op := range []string{" and ", " unless ", " + ", " - ", " * ", " / ", " > ", " < ", " == ", " != ", " >= ", " <= "} {
+		if strings.Contains(rest, op) {
+			return ":unless-rhs-through-binary-operation"
+		}
 	}
 	return ""
+}
+
+// calculateStaticReturn folds comparisons as filters even under the bool modifier
+func lfBool(kind, expr string) string {
+	if kind != "static-comparison" {
+		return ""
+	}
+	out := ""
+	if strings.Contains(expr, " bool ") {
+		out += ":bool-modifier-in-query"
+	}
+	// aggregations whose value is not the value of their input (count, group, stddev, ...) keep KnownReturn
+	for _, a := range []string{"count", "group", "stddev", "stdvar", "count_values"} {
+		if strings.Contains(expr, a+"(") || strings.Contains(expr, a+" by") || strings.Contains(expr, a+" without") {
+			out += ":value-changing-aggregation-in-query"
+			break
+		}
+	}
+	// AlwaysReturns / KnownReturn survive vector-vector operations (same root as the unless finding)
+	if strings.Contains(expr, " on(") || strings.Contains(expr, " ignoring(") {
+		out += ":constant-through-vector-matching"
+	}
+	return out
 }
 
 func lfShowSrc(s utils.Source) map[string]any {
@@ -351,7 +390,8 @@ func c04Eval(r *hx.Run, cs lfCase) {
 				class = "single-branch-label-declared-impossible"
 			}
 			// does a branch the analyser declared dead explain the series?
-			for _, s := range srcs {
+			best := -1
+			for i, s := range srcs {
 				if !s.IsDead {
 					continue
 				}
@@ -361,10 +401,22 @@ func c04Eval(r *hx.Run, cs lfCase) {
 						consistent = false
 					}
 				})
-				if consistent {
-					class = "series-from-branch-declared-dead:" + lfDeadKind(s) + lfBool(lfDeadKind(s), cs.Expr)
-					break
+				if !consistent {
+					continue
 				}
+				if best < 0 {
+					best = i
+				}
+				if s.Selector != nil {
+					for _, m := range s.Selector.LabelMatchers {
+						if m.Name == "__name__" && m.Value == ls.Get("__name__") {
+							best = i
+						}
+					}
+				}
+			}
+			if best >= 0 {
+				class = "series-from-branch-declared-dead:" + lfDeadKind(srcs[best]) + lfBool(lfDeadKind(srcs[best]), cs.Expr) + lfUnless(lfDeadKind(srcs[best]), cs.Expr)
 			}
 			var shown []any
 			for _, s := range srcs {
@@ -450,7 +502,7 @@ func c12Eval(r *hx.Run, cs lfCase) {
 				continue
 			}
 			if lfResultKey(base, bv) != lfResultKey(alt, av) {
-				r.Violate(hx.Violation{Class: "dead-source-contributes:" + lfDeadKind(d) + lfBool(lfDeadKind(d), cs.Expr) + lfBranches(cs.Expr), Known: true, Input: cs, Observed: map[string]any{"source": lfShowSrc(d), "metric": name,
+				r.Violate(hx.Violation{Class: "dead-source-contributes:" + lfDeadKind(d) + lfBool(lfDeadKind(d), cs.Expr) + lfUnless(lfDeadKind(d), cs.Expr) + lfBranches(cs.Expr), Known: true, Input: cs, Observed: map[string]any{"source": lfShowSrc(d), "metric": name,
 					"result": lfResultKey(base, bv), "result_without_its_series": lfResultKey(alt, av)},
 					Expected: "the flagged part contributes nothing: the result does not depend on its series"})
 				return
@@ -460,6 +512,11 @@ func c12Eval(r *hx.Run, cs lfCase) {
 		// a flagged source without a selector (vector(n), a number, time(), ...): replacing it by a selector that matches
 		// nothing must not change the result
 		k := lfDeadKind(d)
+		if k == "static-comparison" && lfBranches(cs.Expr) != "" {
+			// the branch returns nothing, but its operand can still suppress another `or` branch: replacement says nothing here
+			r.Count("static-verdict-in-query-with-or-not-judged")
+			continue
+		}
 		if int(d.Position.End) > len(cs.Expr) || d.Position.Start >= d.Position.End {
 			r.Count("dead-operand-without-position")
 			continue
@@ -471,7 +528,7 @@ func c12Eval(r *hx.Run, cs lfCase) {
 			continue
 		}
 		if lfResultKey(base, bv) != lfResultKey(alt, av) {
-			r.Violate(hx.Violation{Class: "dead-operand-contributes:" + k + lfBool(k, cs.Expr) + lfBranches(cs.Expr), Known: true, Input: cs, Observed: map[string]any{"source": lfShowSrc(d), "operand": cs.Expr[d.Position.Start:d.Position.End],
+			r.Violate(hx.Violation{Class: "dead-operand-contributes:" + k + lfBool(k, cs.Expr) + lfUnless(k, cs.Expr) + lfBranches(cs.Expr), Known: true, Input: cs, Observed: map[string]any{"source": lfShowSrc(d), "operand": cs.Expr[d.Position.Start:d.Position.End],
 				"result": lfResultKey(base, bv), "result_with_empty_operand": lfResultKey(alt, av)},
 				Expected: "the flagged part contributes nothing: replacing it by an empty vector changes nothing"})
 			return
